@@ -213,23 +213,21 @@ def _line_check(item, res, lst, mk_line, label):
     found = []
 
     # the anonymizer has no symbolic input: constructed once (real constructor, uninterpreted md5), shared by all paths
-    saved, core.EX = core.EX, None
-    try:
-        class _On:
-            running = True
-        core.EX = Explorer()
-        core.EX.running = True
-        an = F.sir.AsNumberAnonymizer(list(lst), "S")
-    finally:
-        core.EX = saved
-    amap = {k: an.anonymize(k) for k in lst}
-    distinct = []   # witnesses only: a replacement differs from the number it replaces (so that 'replaced' is observable)
-    for k in lst:
-        v = amap[k]
-        if isinstance(v, SStr) and len(v.cs) == 1 and isinstance(v.cs[0], Atom):
-            distinct.append(v.cs[0].e != int(k))
+    def build(ex_):
+        an_ = F.sir.AsNumberAnonymizer(list(lst), "S")
+        amap_ = {k: an_.anonymize(k) for k in lst}
+        distinct_ = []   # witnesses only: a replacement differs from the number it replaces (so that 'replaced' is observable)
+        for k in lst:
+            v = amap_[k]
+            if isinstance(v, SStr) and len(v.cs) == 1 and isinstance(v.cs[0], Atom):
+                distinct_.append(v.cs[0].e != int(k))
+        return an_, amap_, distinct_
+    # construction has no symbolic input; when it does not fork it is done once and shared by all paths
+    pre = Explorer().explore(lambda e: build(e), want_model=False)
+    shared = pre[0].result if len(pre) == 1 and pre[0].exc is None else None
 
     def h(ex_):
+        an, amap, distinct = shared if shared is not None else build(ex_)
         line_cs, syms = mk_line(ex_)
         line = SStr.mk(list(line_cs))
         out = F.sir.anonymize_as_numbers(an, line)
